@@ -8,6 +8,8 @@
 //!   H <root> <variant> <names> <crh|-> <hex>  Highlighter::highlight (+ HtmlRenderer) on a document;
 //!                                             root ∈ stmt|tmpl|host, variant ∈ 0|1 (injection queries),
 //!                                             names = all | none | generic | sub<seed>
+//!   M <lang> <names> <hex>                    single-layer highlight (highlights query only) + the layer's
+//!                                             capture list through the public query API, for the merge model
 //! Events are written `S<start>-<end>`, `H<highlight>`, `E`, comma separated.
 use std::collections::BTreeMap;
 use std::io::Write;
@@ -455,6 +457,78 @@ fn emit_highlight(w: &mut World, out: &mut impl Write, id: &str, root: usize, va
     !injs.is_empty()
 }
 
+/// `HighlightConfiguration::configure`'s name matching (best = recognised name with most parts, all
+/// of which occur in the capture name), recomputed here because `highlight_indices` is private.
+fn highlight_index(capture_name: &str, names: &[String]) -> Option<usize> {
+    let parts: Vec<&str> = capture_name.split('.').collect();
+    let mut best = None;
+    let mut best_len = 0;
+    for (i, n) in names.iter().enumerate() {
+        let mut len = 0;
+        let mut ok = true;
+        for p in n.split('.') {
+            len += 1;
+            if !parts.contains(&p) {
+                ok = false;
+                break;
+            }
+        }
+        if ok && len > best_len {
+            best = Some(i);
+            best_len = len;
+        }
+    }
+    best
+}
+
+/// Single layer: highlights query only.  Real events + the collapsed capture list of the layer.
+fn emit_merge(w: &mut World, out: &mut impl Write, id: &str, li: usize, names_mode: &str, src: &[u8]) {
+    let ld = &w.langs[li];
+    let all = names_of(&w.langs, 0);
+    let names = pick_names(&all, names_mode);
+    let mut cfg = HighlightConfiguration::new(ld.language.clone(), LANGS[li], &ld.highlights, "", "").expect("config");
+    cfg.configure(&names);
+    let mut evs = Vec::new();
+    let mut err = None;
+    match w.highlighter.highlight(&cfg, src, None, None, |_| None) {
+        Ok(it) => {
+            for e in it {
+                match e {
+                    Ok(e) => evs.push(e),
+                    Err(e) => {
+                        err = Some(format!("{e}"));
+                        break;
+                    }
+                }
+            }
+        }
+        Err(e) => err = Some(format!("{e}")),
+    }
+    let mut parser = Parser::new();
+    parser.set_language(&ld.language).unwrap();
+    let tree = parser.parse(src, None).expect("parse");
+    let query = Query::new(&ld.language, &ld.highlights).expect("highlights query");
+    let cap_names = query.capture_names();
+    let mut cursor = QueryCursor::new();
+    let mut caps: Vec<(Node, Option<usize>)> = Vec::new();
+    let mut it = cursor.captures(&query, tree.root_node(), src);
+    while let Some((m, ci)) = it.next() {
+        let c = m.captures[*ci];
+        let h = highlight_index(cap_names[c.index as usize], &names);
+        match caps.last_mut() {
+            Some(last) if last.0 == c.node => last.1 = h, // later patterns for the same node win
+            _ => caps.push((c.node, h)),
+        }
+    }
+    let cs: Vec<String> = caps.iter().map(|(n, h)| format!("{}-{}-{}", n.start_byte(), n.end_byte(), h.map(|x| x.to_string()).unwrap_or("n".into()))).collect();
+    writeln!(out, "spec {id} M {} {names_mode} {}", LANGS[li], hx(src)).unwrap();
+    writeln!(out, "case {id}\nsrc {}\nevs {}", hx(src), evs_to_string(&evs)).unwrap();
+    if let Some(e) = &err {
+        writeln!(out, "error {}", e.replace(' ', "_")).unwrap();
+    }
+    writeln!(out, "caps {}\nrun merge", if cs.is_empty() { "-".into() } else { cs.join(",") }).unwrap();
+}
+
 // ---------------------------------------------------------------------------------------------
 // generators
 
@@ -659,6 +733,11 @@ fn run_spec(w: &mut World, out: &mut impl Write, id: &str, fields: &[&str]) -> b
             emit_render(out, id, crh(c), &unhx(s), &parse_evs(e));
             true
         }
+        ["M", lang, names, s] => {
+            let li = lang_index(lang).expect("language");
+            emit_merge(w, out, id, li, names, &unhx(s));
+            true
+        }
         ["H", root, variant, names, c, s] => {
             let r = lang_index(root).expect("root language");
             emit_highlight(w, out, id, r, variant.parse().unwrap_or(0), names, crh(c), &unhx(s));
@@ -680,7 +759,7 @@ fn main() {
         let specs = std::fs::read_to_string(&args[3]).unwrap();
         for (i, line) in specs.lines().enumerate() {
             let f: Vec<&str> = line.split_whitespace().collect();
-            let f = if !f.is_empty() && !["L", "R", "H"].contains(&f[0]) { &f[1..] } else { &f[..] };
+            let f = if !f.is_empty() && !["L", "R", "H", "M"].contains(&f[0]) { &f[1..] } else { &f[..] };
             if run_spec(&mut w, &mut out, &format!("r{i}"), f) {
                 n += 1;
             }
@@ -790,6 +869,38 @@ fn main() {
         }
         n += 1;
     }
+    // 5. single-layer merge: real events vs the capture list of the layer
+    let nm = if thorough { 3000 } else { 300 };
+    for i in 0..nm {
+        let li = i % 3;
+        let doc: Vec<u8> = match li {
+            0 => {
+                if rng.chance(1, 2) {
+                    let b = *rng.pick(&[5usize, 20, 60, 150]);
+                    gen_stmt(&stmt_gg, &mut rng, b)
+                } else {
+                    gen_stmt_locals(&mut rng, 2).into_bytes()
+                }
+            }
+            1 => gen_tmpl(&stmt_gg, &mut rng, 2).into_bytes(),
+            _ => gen_host(&stmt_gg, &mut rng, 3).into_bytes(),
+        };
+        let level = match rng.below(8) {
+            0 => 1,
+            1 => 2,
+            2 => 3,
+            _ => 0,
+        };
+        let mut doc = spice_doc(&mut rng, doc, level);
+        doc.truncate(6000);
+        let names = match rng.below(6) {
+            0 => "generic".to_string(),
+            1 | 2 => format!("sub{}", rng.below(1000)),
+            _ => "all".to_string(),
+        };
+        emit_merge(&mut w, &mut out, &format!("M{i}"), li, &names, &doc);
+        n += 1;
+    }
     out.flush().unwrap();
-    eprintln!("c17: wrote {n} cases ({li} lossy, {nr} render, {nh} highlight of which {with_inj} with injections) to {out_path}");
+    eprintln!("c17: wrote {n} cases ({li} lossy, {nr} render, {nh} highlight of which {with_inj} with injections, {nm} single-layer merge) to {out_path}");
 }
